@@ -10,6 +10,24 @@ theorem wsgi_slots_irrelevant (app : App) (s s' : Slots) (r : Req) : wsgi app s 
   unfold wsgi handle
   rw [reinit_eq, reinit_eq]
 
+/-- after `request.__init__` no extension attribute of an earlier request is left -/
+theorem extAtHandler_eq (s : Slots) (r : Req) (sets : List (Str × Str)) : extAtHandler s r sets = sets := by
+  unfold extAtHandler Slots.initRequest
+  rfl
+
+theorem withProbe_slots_irrelevant (s s' : Slots) (hr : HReq) (req : Req) :
+    withProbe s hr req = withProbe s' hr req := by
+  unfold withProbe
+  simp only [extAtHandler_eq]
+
+theorem withProbe_ids (s : Slots) (hr : HReq) (req : Req) :
+    (withProbe s hr req).id = req.id ∧ (withProbe s hr req).urlRepr = req.urlRepr ∧
+    (withProbe s hr req).json = req.json := by
+  unfold withProbe
+  split
+  · split <;> exact ⟨rfl, rfl, rfl⟩
+  · exact ⟨rfl, rfl, rfl⟩
+
 /-- what of a shared error object a response can show -/
 def SharedErr.core (e : SharedErr) : String × RState × Str := (e.cls, e.resp, e.body)
 
